@@ -16,6 +16,51 @@ _MODEL_FAULTS = [
     "reach:second_hop_restore",
 ]
 
+# Every public tensorflow_lattice class that has get_config (39 of them; the
+# abstract configs._Config is not instantiable) must have been rebuilt from its
+# own config at least once in a thorough C11 batch.
+ROUNDTRIP_CLASSES = [
+    "aggregation_layer.Aggregation",
+    "categorical_calibration_layer.CategoricalCalibration",
+    "categorical_calibration_layer.CategoricalCalibrationConstraints",
+    "cdf_layer.CDF",
+    "configs.AggregateFunctionConfig",
+    "configs.CalibratedLatticeConfig",
+    "configs.CalibratedLatticeEnsembleConfig",
+    "configs.CalibratedLinearConfig",
+    "configs.DominanceConfig",
+    "configs.FeatureConfig",
+    "configs.RegularizerConfig",
+    "configs.TrustConfig",
+    "kronecker_factored_lattice_layer.BiasInitializer",
+    "kronecker_factored_lattice_layer.KFLRandomMonotonicInitializer",
+    "kronecker_factored_lattice_layer.KroneckerFactoredLattice",
+    "kronecker_factored_lattice_layer.KroneckerFactoredLatticeConstraints",
+    "kronecker_factored_lattice_layer.ScaleConstraints",
+    "kronecker_factored_lattice_layer.ScaleInitializer",
+    "lattice_layer.LaplacianRegularizer",
+    "lattice_layer.Lattice",
+    "lattice_layer.LatticeConstraints",
+    "lattice_layer.LinearInitializer",
+    "lattice_layer.RandomMonotonicInitializer",
+    "lattice_layer.TorsionRegularizer",
+    "linear_layer.Linear",
+    "linear_layer.LinearConstraints",
+    "parallel_combination_layer.ParallelCombination",
+    "premade.AggregateFunction",
+    "premade.CalibratedLattice",
+    "premade.CalibratedLatticeEnsemble",
+    "premade.CalibratedLinear",
+    "pwl_calibration_layer.HessianRegularizer",
+    "pwl_calibration_layer.LaplacianRegularizer",
+    "pwl_calibration_layer.NaiveBoundsConstraints",
+    "pwl_calibration_layer.PWLCalibration",
+    "pwl_calibration_layer.PWLCalibrationConstraints",
+    "pwl_calibration_layer.UniformOutputInitializer",
+    "pwl_calibration_layer.WrinkleRegularizer",
+    "rtl_layer.RTL",
+]
+
 REQUIRED = {
     "C07": [
         "reach:scale_zero_at_check",
@@ -41,5 +86,5 @@ REQUIRED = {
         "fault:crash_hard", "fault:hard_restart", "fault:checkpoint:savedmodel",
         "reach:hard_restart_compared", "restore_compared",
         "objects_round_tripped",
-    ],
+    ] + ["roundtrip_class:" + c for c in ROUNDTRIP_CLASSES],
 }
